@@ -106,6 +106,8 @@ def impl_pair(cfg1, o1, cfg2, o2, rng, hook=None):
         out.append(res_spec(attempt(lambda: s1.transform(None, lambda leafspec: s2))))
         # again, for the array-level model of the IsPrefix loop
         out += [(0, out[4]), (0, out[5]), (0, out[6]), (0, out[7])]
+        # and of the FlattenUpTo loop
+        out.append(out[8])
         if hook is not None:
             hook(t1, t2, s1, s2, kw1, kw2, out)
         return tuple(out)
